@@ -680,6 +680,7 @@ pub fn summarize(m: &Msg) -> String {
                 RData::Srv { port, target, .. } => s.push_str(&format!("->{}:{}", target.escaped(), port)),
                 RData::A(a) => s.push_str(&format!("={}.{}.{}.{}", a[0], a[1], a[2], a[3])),
                 RData::AAAA(a) => s.push_str(&format!("={}", std::net::Ipv6Addr::from(*a))),
+                RData::Txt(b) => s.push_str(&format!("#{}", b.len())),
                 _ => {}
             }
         }
